@@ -12,16 +12,90 @@ LEVEL_NOTE = ("Bounded: holds for all symbolic inputs within the N/P/L/K bounds 
               "symbolically searched). Trusted: rustc MIR, Kani 0.68, CBMC 6.11 + CaDiCaL, the loop-free "
               "reconstruction hook (round-trip checked natively every run), the environment stubs listed per harness.")
 
-CLAIMED = {
-    "C01": ("3 C01", "Kani/CBMC bounded model checking of the real search + iterator code on natively built DFAs: "
-            "symbolic haystack (all byte values), symbolic span, result compared with an executable leftmost-first/"
-            "longest specification; iterator by K=2 induction",
+ENABLED = set(open(os.path.join(VERIF, "enabled.txt")).read().split())
+
+BMC = "Kani/CBMC bounded model checking of the real code on natively built automata: "
+ALL_CLAIMS = {
+    "C01": ("3 C01", BMC + "symbolic haystack (all byte values) and span, result compared with an executable "
+            "leftmost-first/longest specification; iterator by K=2 induction",
             "SAT-decided equality between try_find/FindIter on every haystack up to N bytes and the leftmost "
             "definition, per catalogue pattern list; transfers to both NFAs through the C04 simulation step"),
-    "C02": ("3 C02", "Kani/CBMC bounded model checking of the real search + iterator code against an executable "
-            "standard-semantics specification (earliest end, longest, first supplied); iterator by K=2 induction",
+    "C02": ("3 C02", BMC + "symbolic haystack and span vs an executable standard-semantics specification (earliest "
+            "end, longest, first supplied); iterator by K=2 induction",
             "SAT-decided equality with the standard-semantics definition on every haystack up to N bytes"),
+    "C03": ("3 C03", BMC + "stepwise overlapping search: complete drain from the fresh state vs the ordered occurrence "
+            "list, plus an inductive step from every (match state, i matches reported) pre-state on a symbolic haystack",
+            "SAT-decided: every call on an OverlappingState yields the specification's next occurrence (order, "
+            "exactly-once, termination) for haystacks up to N bytes; induction over the call history"),
+    "C04": ("3 C04", "Kani/CBMC per-state simulation step between the three automaton representations (relation "
+            "proposed by a native product walk, every related pair x symbolic byte x both anchoring modes decided by "
+            "the solver), start states and metadata compared; automatic and low-level builds compared table-for-table",
+            "inductive equivalence of noncontiguous NFA, contiguous NFA and DFA per catalogue case and builder "
+            "configuration: covers haystacks of every length for that case"),
+    "C05": ("3 C05", BMC + "search with the reconstructed prefilter (start-byte, rare-byte, memmem variants; memchr "
+            "stubbed by its contract) on symbolic haystacks/spans vs the executable specification (the prefilter-free "
+            "build is tied to the same specification by C01/C02/C03)",
+            "SAT-decided: no haystack up to N bytes makes a prefilter-accelerated find/iterator/overlapping step "
+            "differ from the definition, per activated prefilter variant"),
+    "C06": ("3 C06", BMC + "packed Rabin-Karp find_in/FindIter on fully symbolic exactly-sized haystacks and spans vs "
+            "the leftmost definition; 128-bit slim Teddy (pshufb stubbed by its lane semantics) on windowed symbolic "
+            "content around the vector boundary",
+            "SAT-decided equality with the leftmost definition for Rabin-Karp (all contents up to N bytes) and for "
+            "Teddy on a symbolic window at stated offsets of a 16..19 byte haystack"),
+    "C07": ("3 C07", "Kani/CBMC inductive step of StreamChunkIter::next from an arbitrary pre-state under an explicit "
+            "invariant, symbolic stream, symbolic read-size schedule, small buffer capacity via the hook; plus complete "
+            "runs from the real constructor on short streams",
+            "one next() from every state satisfying Inv yields the next chunk of the specification and re-establishes "
+            "Inv, for every read schedule: covers streams of any length for the case/capacity"),
+    "C08": ("3 C08", "same inductive step (chunk positions and bytes: concatenation of chunks is the stream, match "
+            "chunks are exactly the matches) plus complete try_stream_replace_all_with runs on short streams with a "
+            "recording writer, output compared with the in-memory replacement specification",
+            "SAT-decided byte-for-byte equality of stream replacement output for all streams up to T bytes and all "
+            "read schedules; chunk-level induction for longer streams"),
+    "C09": ("3 C09", BMC + "anchored find / iterator (K=2 induction) / stepwise overlapping drain on symbolic "
+            "haystacks and span starts vs the anchored specification, DFAs with start kinds Both and Anchored",
+            "SAT-decided equality with the anchored definition on every haystack up to N bytes"),
+    "C10": ("3 C10", BMC + "relational harness: search on a span vs search of the copied sub-slice vs search with "
+            "arbitrary bytes outside the span, plus start=end+1; non-overlapping and overlapping steps, both anchorings",
+            "SAT-decided: span search == shifted sub-slice search and is independent of bytes outside the span"),
+    "C11": ("3 C11", BMC + "case-insensitive builds searched on fully symbolic haystacks vs the specification with "
+            "A-Z/a-z folding only; exhaustive solver check of the builders' letter flip over all 256 byte values",
+            "SAT-decided equality with the folded definition (so '@','[','`','{' and bytes >= 0x80 are covered)"),
+    "C12": ("3 C12", BMC + "try_replace_all_with_bytes / try_replace_all_with on symbolic haystacks (valid UTF-8 "
+            "assumed for the str variant) with a symbolic stop point of the closure vs the splice specification",
+            "SAT-decided equality of the output with the splice of the iterator's matches for haystacks up to N bytes"),
+    "C13": ("3 C13", BMC + "AhoCorasick values rebuilt around each automaton kind for every match kind x start kind; "
+            "fallible APIs: Err iff the rejection predicate; infallible APIs: must panic on every path in rejected "
+            "cells (should_panic + unsatisfiable 'returned normally' witness), must not panic in accepted cells",
+            "SAT-decided agreement of Ok/Err/panic with the configuration-only predicate for symbolic haystack and "
+            "requested anchoring"),
+    "C14": ("3 C14", BMC + "is_match (earliest search) and earliest mode vs existence of an occurrence and vs the "
+            "normal search, symbolic haystack/span/anchoring",
+            "SAT-decided: is_match == find.is_some() == exists; earliest result is an occurrence ending no later"),
+    "C15": ("3 C15", BMC + "CBMC pointer/bounds/overflow/panic checks on exactly sized haystack objects for the "
+            "packed searchers (Rabin-Karp; Teddy raw-pointer loads) and the automaton searches, plus match "
+            "well-formedness",
+            "every dereference/offset/index in the encoded code is proved in-bounds of the exact haystack allocation "
+            "for all contents within the stated sizes; no reachable panic"),
+    "C16": ("3 C16", "Kani/CBMC per-state contract check (all related states x symbolic byte x both anchorings: no "
+            "panic, dead absorbing, special-class consistency, valid match lists) and the documented search recipe vs "
+            "the built-in search on symbolic haystacks",
+            "exhaustive per automaton over states reachable from the start states; recipe equality up to N bytes"),
+    "C17": ("3 C17", BMC + "sequential purity: an arbitrary symbolic search (and an overlapping step) before a second "
+            "symbolic search does not change its result, and a clone answers identically; concurrent schedules are "
+            "outside the claim",
+            "SAT-decided independence from an arbitrary prior search, K=2 suffices by induction"),
+    "C18": ("3 C18", "the C07 inductive step with a reader failing at a symbolic call, and complete stream "
+            "replacement runs with a writer failing at a symbolic call",
+            "an injected failure surfaces as Err, never a panic, nothing yielded/written before it is wrong, Inv is "
+            "preserved across the error, end of stream only after the reader reported it"),
+    "C19": ("3 C19", BMC + "hook counters: transitions <= span length, positions strictly increasing, failure-link "
+            "traversals <= transitions (0 for the DFA) on symbolic haystacks; structural lemma depth(fail(s)) < depth(s) "
+            "for every state of the dumped NFA",
+            "SAT-decided work bound per search for haystacks up to N bytes plus the per-state lemma that makes it "
+            "length independent"),
 }
+CLAIMED = {k: v for k, v in ALL_CLAIMS.items() if k in ENABLED}
 
 NOT_YET = "check not built yet in this round (see DESIGN.md section 6 for the order)"
 NA = {
